@@ -221,11 +221,15 @@ def check_collect(chk, prefix="C05"):
 
 
 # ------------------------------------------------------------------------------------------------ checkpoint_batches_forever
-def woken_range(st, lo, hi, name="i"):
-    """z3: every synchronous element with index in [lo, hi) has had its completion event set"""
-    W, _ = ghost_arrays(st)
+def woken_range(st, lo, hi, name="i", err=None, before=None):
+    """z3: every synchronous element with index in [lo, hi) has had its completion event set; with `err` given: and the error it was set with is
+    err (unless the element had already been released before, array `before`)"""
+    W, We = ghost_arrays(st)
     i = z3.Int(fresh_name(name))
-    return z3.ForAll([i], z3.Implies(z3.And(i >= lo, i < hi, z3.Not(is_async(i))), z3.Select(W, i)))
+    body = z3.Select(W, i)
+    if err is not None:
+        body = z3.And(body, z3.Or(z3.Select(before, i) if before is not None else F, z3.Select(We, i) == err))
+    return z3.ForAll([i], z3.Implies(z3.And(i >= lo, i < hi, z3.Not(is_async(i))), body))
 
 
 def check_consumer(chk, prefix, want=("C03", "C05", "C06", "C01")):
@@ -300,6 +304,7 @@ def check_consumer(chk, prefix, want=("C03", "C05", "C06", "C01")):
         st_.ghost["last_token"] = tok
         st_.ghost["iter_start"] = len(st_.trace)
         st_.ghost["token_at_call"] = tok
+        st_.ghost["W_iter"] = st_.ghost["W"]
         for v in ("batch", "updates", "output", "bg_error", "item", "queued_op"):
             st_.env.pop(v, None)
 
@@ -309,15 +314,24 @@ def check_consumer(chk, prefix, want=("C03", "C05", "C06", "C01")):
 
         def abstract(eng_, st_):
             q = st_.get(ref)
-            st_.ghost["drain_" + which] = (q["start"], q["len"], st_.ghost["W"])
+            st_.ghost["drain_" + which] = (q["start"], q["len"], st_.ghost["W"], st_.ghost["Werr"])
             st_.emit("drain_start", which=which)
 
         def inv(eng_, st_):
             q = st_.get(ref)
-            s0, l0, W_entry = st_.ghost["drain_" + which]
+            s0, l0, W_entry, We_entry = st_.ghost["drain_" + which]
             i = z3.Int(fresh_name("i"))
-            grows = z3.ForAll([i], z3.Implies(z3.Select(W_entry, i), z3.Select(st_.ghost["W"], i)))  # completion events are never cleared
-            base = z3.And(q["start"] >= s0, woken_range(st_, s0, q["start"]), grows)
+            # completion events are never cleared, and the error of an event that is already set is never replaced (first error wins)
+            eid = qmodel.err_id(st_.env["bg_error"]) if isinstance(st_.env.get("bg_error"), Ref) else z3.IntVal(-2)
+            Wn, Wen = st_.ghost["W"], st_.ghost["Werr"]
+            inside = z3.And(i >= s0, i < q["start"])
+            # one quantified fact: outside the drained prefix nothing changed; inside it, an event that was already set keeps its error (first error
+            # wins), a synchronous element that was not set is now set with the failure, an asynchronous one is untouched
+            per_elem = z3.If(inside,
+                             z3.If(z3.Select(W_entry, i), z3.And(z3.Select(Wn, i), z3.Select(Wen, i) == z3.Select(We_entry, i)),
+                                   z3.If(is_async(i), z3.And(z3.Not(z3.Select(Wn, i)), z3.Select(Wen, i) == z3.Select(We_entry, i)), z3.And(z3.Select(Wn, i), z3.Select(Wen, i) == eid))),
+                             z3.And(z3.Select(Wn, i) == z3.Select(W_entry, i), z3.Select(Wen, i) == z3.Select(We_entry, i)))
+            base = z3.And(q["start"] >= s0, z3.ForAll([i], per_elem))
             if which == "overflow":
                 base = z3.And(base, q["start"] + q["len"] == s0 + l0, q["len"] >= 0)
             return base
@@ -420,8 +434,10 @@ def check_consumer(chk, prefix, want=("C03", "C05", "C06", "C01")):
             m_end = M(s)["start"]
             D = "after a failed API call / merge: every synchronous element of the batch, the overflow queue and the main queue as of the drain is woken with BackgroundThreadError(cause); the failed flag is set with it; no further API call; the loop exits"
             chk.prove(f"{prefix}.consumer.fail_wakes_all.error_object", s.pc, bool(src_ok and all_err and len(api) == 1), desc=D)
-            chk.prove(f"{prefix}.consumer.fail_wakes_all.batch", s.pc, woken_range(s, lo, lo + n), desc=D)
-            chk.prove(f"{prefix}.consumer.fail_wakes_all.queues", s.pc, z3.And(woken_range(s, lo + n, m_end), O(s)["len"] <= 0, m_end >= lo + n), desc=D)
+            eid = qmodel.err_id(err) if isinstance(err, Ref) else z3.IntVal(-2)
+            Wb = s.ghost.get("W_iter")
+            chk.prove(f"{prefix}.consumer.fail_wakes_all.batch", s.pc, woken_range(s, lo, lo + n, err=eid, before=Wb), desc=D)
+            chk.prove(f"{prefix}.consumer.fail_wakes_all.queues", s.pc, z3.And(woken_range(s, lo + n, m_end, err=eid, before=Wb), O(s)["len"] <= 0, m_end >= lo + n), desc=D)
             chk.prove(f"{prefix}.consumer.fail_wakes_all.earlier", s.pc, woken_range(s, 0, lo), desc="elements delivered earlier stay woken")
             kinds = [e.kind for e in it]
             drains = [i for i, e in enumerate(it) if e.kind == "drain_start"]
